@@ -27,15 +27,22 @@ PROBES = ["clean_run", "time_limit_run", "injected_run", "inject_phase_init", "i
 
 
 def budget(tier):
-    return 1000 if tier == "quick" else 40000
+    return 1500 if tier == "quick" else 40000
 
 
 def gen(rng, tier):
     focus = {}
     if rng.random() < 0.4:
         focus.update(comps=True, facilities=True, conveyor=rng.random() < 0.6)
-    if rng.random() < 0.5:
+    r_ = rng.random()
+    if r_ < 0.3:
         focus["kinds"] = [0]
+    elif r_ < 0.6:
+        # finish-to-start links mixed with one other kind, densely: in the reversed network a task's successors of both kinds
+        # are the entries of its input list
+        focus["kinds"] = [0, rng.choice([1, 2, 3])]
+        focus["density"] = 0.5
+        focus["contention"] = "low"
     spec = C.forward_spec(rng, tier, focus, max_time=rng.choice([15, 30, 40]))
     for t in spec["model"]["tasks"]:
         if rng.random() < 0.6:
@@ -47,6 +54,7 @@ def gen(rng, tier):
     spec["limit"] = rng.randint(0, 6)
     spec["base_exc"] = rng.random() < 0.6
     spec["warn_error"] = rng.random() < 0.4
+    spec["refused"] = rng.random() < 0.4
     return spec
 
 
@@ -60,7 +68,7 @@ def extra_candidates(spec):
         c = dict(spec)
         c["points"] = pts[:i] + pts[i + 1:]
         yield c
-    for k in ("due", "reverse", "warn_error"):
+    for k in ("due", "reverse", "warn_error", "refused"):
         if spec.get(k):
             c = dict(spec)
             c[k] = False
@@ -225,6 +233,19 @@ def run(spec):
             res.count("time_limit_run_with_warnings_as_errors")
             what = "backward_simulate(max_time=%d) with warnings turned into errors, which %s" % (lim, "returned" if out.ok else "raised %s" % out.exc_type)
             check_after(res, spec, p, before, what, "time_limit_warning_as_error", dtwin)
+    # 2b. a call the library refuses with its documented exception (unsupported task_performed_mode)
+    if only in (None, "limit") and spec.get("refused"):
+        scen.setup_run(spec.get("seed", 0))
+        b_ = B.build(spec["model"], spec.get("ranks"))
+        p = b_.project
+        seams.attach(p)
+        before = structure(p)
+        o_r = D.call(lambda: p.backward_simulate(task_performed_mode="single-worker", max_time=spec["cfg"].get("max_time", 40),
+                                                 considering_due_time_of_tail_tasks=bool(spec.get("due"))), D.Recorder(p, want_snap=False))
+        executed += 1
+        res.count("refused_call_run")
+        check_after(res, spec, p, before, "backward_simulate(task_performed_mode='single-worker') that %s" % ("returned" if o_r.ok else "raised %s" % o_r.exc_type),
+                    "refused_call", dtwin)
     # 3. injected exceptions
     if only in (None, "inject"):
         if spec.get("all_points"):
